@@ -82,6 +82,61 @@ static void c17_hostile_huff(struct jpeg_compress_struct *c, unsigned long long 
   *prs = rs;
 }
 
+/* rstrows w h rows prog : a gray image compressed with the restart interval given in MCU rows (jpeg_compress_struct.restart_in_rows),
+ * up to the point where rows x MCUs-per-row reaches the 16-bit limit of the DRI segment.  What is written must agree with itself: the
+ * library's own decoder must read it without a warning and give the pixels of the same image compressed without restart markers. */
+static unsigned long long c17_rr_decode(const unsigned char *jp, unsigned long n, int *warn, int *err)
+{
+  struct jpeg_decompress_struct d; my_err_t e; unsigned long long h = 14695981039346656037ULL; JSAMPLE *row = NULL;
+  d.err = my_err_init(&e);
+  jpeg_create_decompress(&d);
+  if (setjmp(e.jb)) { *err = e.code; jpeg_destroy_decompress(&d); free(row); return 0; }
+  jpeg_mem_src(&d, jp, n);
+  jpeg_read_header(&d, TRUE);
+  jpeg_start_decompress(&d);
+  row = (JSAMPLE *)malloc((size_t)d.output_width * d.output_components);
+  while (d.output_scanline < d.output_height) { JSAMPROW rp = row; size_t i; jpeg_read_scanlines(&d, &rp, 1); for (i = 0; i < (size_t)d.output_width * d.output_components; i++) { h ^= row[i]; h *= 1099511628211ULL; } }
+  jpeg_finish_decompress(&d);
+  *warn = (int)e.nwarn;
+  jpeg_destroy_decompress(&d); free(row);
+  return h;
+}
+static int c17_rstrows(toks_t *t)
+{
+  int w = (int)tl(t, 1), h = (int)tl(t, 2), rows = (int)tl(t, 3), prog = (int)tl(t, 4), pass, y, x, warn[2] = { 0, 0 }, err[2] = { 0, 0 };
+  unsigned char *jp[2] = { NULL, NULL }; unsigned long jn[2] = { 0, 0 }; unsigned long long hh[2]; JSAMPLE *row = (JSAMPLE *)malloc((size_t)w);
+  for (pass = 0; pass < 2; pass++) {
+    struct jpeg_compress_struct c; my_err_t e;
+    c.err = my_err_init(&e);
+    jpeg_create_compress(&c);
+    if (setjmp(e.jb)) { printf("R err compress %d\n", e.code); printf("O fail rstrows: compressor rejected a valid request (code %d)\n", e.code); jpeg_destroy_compress(&c); goto done; }
+    jpeg_mem_dest(&c, &jp[pass], &jn[pass]);
+    c.image_width = (JDIMENSION)w; c.image_height = (JDIMENSION)h; c.input_components = 1; c.in_color_space = JCS_GRAYSCALE;
+    jpeg_set_defaults(&c);
+    jpeg_set_quality(&c, 50, TRUE);
+    if (prog) jpeg_simple_progression(&c);
+    if (pass == 0) c.restart_in_rows = rows;
+    jpeg_start_compress(&c, TRUE);
+    for (y = 0; y < h; y++) { JSAMPROW rp = row; for (x = 0; x < w; x++) row[x] = (JSAMPLE)((x * 7 + y * 13 + ((x ^ y) & 8) * 9) & 255); jpeg_write_scanlines(&c, &rp, 1); }
+    jpeg_finish_compress(&c);
+    jpeg_destroy_compress(&c);
+    hh[pass] = c17_rr_decode(jp[pass], jn[pass], &warn[pass], &err[pass]);
+  }
+  {
+    /* DRI value and number of RSTn markers in the stream */
+    unsigned long i, nrst = 0; long dri = -1;
+    for (i = 2; i + 1 < jn[0]; i++) if (jp[0][i] == 0xFF) { if (jp[0][i + 1] == 0xDD && dri < 0) dri = ((long)jp[0][i + 4] << 8) | jp[0][i + 5]; else if (jp[0][i + 1] >= 0xD0 && jp[0][i + 1] <= 0xD7) nrst++; }
+    printf("R skip dri %ld rst %lu warn %d\n", dri, nrst, warn[0]);
+    if (err[0]) printf("O fail rstrows: own decoder rejects the file written with restart_in_rows=%d for %dx%d (error %d)\n", rows, w, h, err[0]);
+    else if (warn[0]) printf("O fail rstrows: own decoder warns (%d warnings) about the file written with restart_in_rows=%d for %dx%d: DRI says %ld, %lu RSTn markers present\n", warn[0], rows, w, h, dri, nrst);
+    else if (hh[0] != hh[1]) printf("O fail rstrows: restart_in_rows=%d for %dx%d changes the decoded image\n", rows, w, h);
+    else printf("O ok\n");
+  }
+done:
+  free(jp[0]); free(jp[1]); free(row);
+  return 1;
+}
+
 /* cparam fam seed */
 static int c17_cparam(toks_t *t)
 {
@@ -243,6 +298,7 @@ static int c17_xcoef(toks_t *t)
 
 static int dispatch_c17(toks_t *t)
 {
+  if (!strcmp(t->tok[0], "rstrows") && t->n >= 5) return c17_rstrows(t);
   if (!strcmp(t->tok[0], "cparam") && t->n >= 3) return c17_cparam(t);
   if (!strcmp(t->tok[0], "xcoef") && t->n >= 7) return c17_xcoef(t);
   return 0;
